@@ -612,6 +612,10 @@ def _apply_bin(lib, op, a, b):
         return a @ b
     if op in ("stack", "concatenate"):
         return getattr(lib, op)([a, b])
+    if op == "concatenate_e1":            # a zero-long piece still takes part in the dtype promotion
+        return lib.concatenate([a[:0], b])
+    if op == "concatenate_e2":
+        return lib.concatenate([a, b[:0], a])
     if op == "where":
         return lib.where(lib.cond, a, b)
     return getattr(lib, op)(a, b)
@@ -825,6 +829,9 @@ def jobs(tier: str, seed: int):
     for fn in ("matmul", "dot"):
         for na, nb in [(1, 1), (2, 2), (2, 1), (1, 2), (3, 2)] + ([(3, 3), (2, 3)] if th else []):
             add("matmul", fn=fn, na=na, nb=nb, maxlen=3 if na + nb <= 4 else 2)
+    # stacks of matrices of different rank: batch axes align on the right
+    for na, nb in [(3, 4), (4, 3)]:
+        add("matmul", fn="matmul", na=na, nb=nb, maxlen=2)
     for nd in (1, 2):
         add("pad_shapes", nd=nd, maxlen=3 if nd == 1 else 2)
     for pat in ["AA", "A:A", "AB", "BA:", "A:", "AiA"] + (["AAA", ":AA", "B:A"] if th else []):
@@ -834,6 +841,8 @@ def jobs(tier: str, seed: int):
     for op in BINOPS:
         for kind in KINDS:
             add("dtype_binary", op=op, kind=kind)
+    for op in ("concatenate_e1", "concatenate_e2"):
+        add("dtype_binary", op=op, kind="aa")
     for op in UNOPS:
         add("dtype_unary", op=op)
 
